@@ -120,3 +120,20 @@ Theorem C13_cursor_moves_past_the_yielding_group :
     end.
 Proof. exact fu_iter_shape. Qed.
 Print Assumptions C13_cursor_moves_past_the_yielding_group.
+
+(** several polls: as long as nothing is pushed, a group at distance d from the cursor is polled
+    within d + 1 polls, whatever the other groups yield in the meantime and whatever waker
+    actions, observations and moves happen between the polls.  [ops0] is any history leading to
+    a FuturesUnordered ([mrg = false]) or MergeUnbounded; [ops] contains polls and environment
+    operations only *)
+Theorem C13_group_polled_within_its_distance :
+  forall (P : params), params_ok P ->
+  forall (ops0 ops : list op) (mrg : bool) (u : fu) (pre : list fub) (g : fub) (post : list fub),
+  st_coll (reach P ops0) = Cu mrg u -> rot u = pre ++ g :: post -> Forall poll_or_env ops ->
+  length pre < npolls ops ->
+  exists ops1 t i ops2 u1,
+      ops = ops1 ++ OPoll t i :: ops2 /\ st_coll (reach P (ops0 ++ ops1)) = Cu mrg u1 /\ In g (groups u1)
+      /\ polled_in P mrg g t (begin_op i (st_world (reach P (ops0 ++ ops1))))
+                   (snd (fu_poll_next P mrg u1 t (begin_op i (st_world (reach P (ops0 ++ ops1)))))).
+Proof. exact group_polled_within_distance_plus_one. Qed.
+Print Assumptions C13_group_polled_within_its_distance.
